@@ -8,6 +8,7 @@ both, (c) for read-only queries the object's attributes and every caller-supplie
 byte-identical before and after.
 """
 import hashlib
+import warnings
 import itertools
 
 import numpy as np
@@ -68,17 +69,19 @@ QUERIES = [("q", n) for n in ("capture", "relative_capture", "system_capture", "
                               "fit_excitation", "compute_gamut", "gamut_l1_scaling", "gamut_dist_scaling",
                               "fit_underdetermined", "minimize_variance",
                               # read-only queries about the REGISTERED targets (no argument)
-                              "in_gamut_registered", "range_of_solutions_registered")]
+                              "in_gamut_registered", "range_of_solutions_registered",
+                              # seeded sampling with a quasi-Monte-Carlo engine
+                              "sample_in_gamut_qmc")]
 ALPHABET = MUTATORS + QUERIES
 
 M = Monitor(
     pid="C14",
     setup=_setup,
-    exhaustive_claim="every history of length <= 2 over the 38-symbol alphabet (quick and thorough) and every mutator-only history of length 3 (thorough), from a registered start state, with arguments from fixed pools",
+    exhaustive_claim="every history of length <= 2 over the 39-symbol alphabet (quick and thorough) and every mutator-only history of length 3 (thorough), from a registered start state, with arguments from fixed pools",
     title="Estimator answers depend only on what is currently registered; queries are pure",
     rule=("histories over the alphabet {register_system(2 source sets x given/default bounds), register_bounds(3), "
           "register_adaptation(scalar/vector/matrix), register_baseline(3), register_background_adaptation(add F/T), "
-          "register_system_adaptation(add F/T), register_targets(+-W), fit(), 18 read-only queries (two of them about the registered targets)}; enumerated exhaustively "
+          "register_system_adaptation(add F/T), register_targets(+-W), fit(), 19 read-only queries (two of them about the registered targets)}; enumerated exhaustively "
           "for length <= 2 (quick) and mutator-only length 3 (thorough), random histories of length <= 12 (quick) / 30 "
           "(thorough). non-trivial = history contains >= 2 mutators or a query after a mutator. distinct = the history itself"),
     # sized so that the weighted round-robin completes both enumerations (weights: len2 6, mut3 8, random 1, random_long 1)
@@ -246,6 +249,10 @@ def run_query(est, name):
             return "ok", np.concatenate([np.ravel(r[0]), np.ravel(r[1])])
         if name == "sample_in_gamut":
             return "ok", est.sample_in_gamut(6, seed=5)
+        if name == "sample_in_gamut_qmc":
+            with warnings.catch_warnings():
+                warnings.simplefilter("ignore")
+                return "ok", est.sample_in_gamut(8, seed=5, engine="Halton")
         if name == "fit_gaussian":
             X, B = est.fit(arg(T1), **TIGHT())
             return "ok", np.concatenate([np.ravel(X), np.ravel(B)])
@@ -270,6 +277,11 @@ def run_query(est, name):
             X, B, V = est.minimize_variance(arg(T1[:1]), solver=cp.CLARABEL, l2_eps=1e-3)
             return "ok", np.concatenate([np.ravel(B), np.ravel(V)])
     except Exception as e:  # noqa  -- the *kind* of failure is part of the answer
+        tb = e.__traceback__
+        while tb.tb_next is not None:
+            tb = tb.tb_next
+        if tb.tb_frame.f_code.co_filename == __file__:
+            raise           # raised by this monitor's own code, not by the library: a harness error, never an answer
         return "raises", type(e).__name__
     raise ValueError(name)
 
